@@ -114,6 +114,9 @@ def decorate(g, rnd, actions=True, plain=False):
         merged.append(d)
     merged += precl[pi:]
     decls += merged
+    if not plain and rnd.random() < 0.2:
+        # `%token NAME -1`: an alias of the end marker (no grammar symbol of its own)
+        decls.insert(rnd.randint(0, len(decls)), ('token', None, [(('id', rnd.choice(['ENDMARK', 'EOF_', 'AAEND'])), -1, None)]))
     startname = nts[g['start']]['name']
     decls.insert(rnd.randint(0, len(decls)), ('start', startname))
     groups = []
